@@ -38,6 +38,33 @@ def getitem(x, key):
     if sum(isinstance(k, np.ndarray) for k in key) > 1:
         return GCXS.from_coo(x.tocoo()[orig_key])
 
+    if any(k is None for k in key):
+        # index without the new axes, then insert them as axes of length one
+        inner = [k for k in key if k is not None]
+        if all(isinstance(k, Integral) for k in inner):
+            return GCXS.from_coo(x.tocoo()[orig_key])
+        result = _getitem(x, inner, orig_key)
+        dims = iter(result.shape)
+        new_shape = []
+        array_seen = False
+        for k in key:
+            if k is None:
+                new_shape.append(1)
+            elif isinstance(k, np.ndarray):
+                if not array_seen:
+                    new_shape.append(next(dims))
+                array_seen = True
+            elif not isinstance(k, Integral):
+                new_shape.append(next(dims))
+        return result.reshape(tuple(new_shape))
+
+    return _getitem(x, key, orig_key)
+
+
+def _getitem(x, key, orig_key):
+    """``getitem`` for a normalized ``key`` without new axes."""
+    from .compressed import GCXS
+
     # return a single element
     if all(isinstance(k, int) for k in key):
         if any(k is Ellipsis for k in orig_key):
@@ -53,7 +80,7 @@ def getitem(x, key):
     shape_key = np.zeros(len(x.shape), dtype=np.intp)
 
     # remove Nones from key, evaluate them at the end
-    Nones_removed = [k for k in key if k is not None]
+    Nones_removed = key
     count = 0
     for i, ind in enumerate(Nones_removed):
         if isinstance(ind, Integral):
@@ -167,15 +194,8 @@ def getitem(x, key):
     arg = (data, indices, indptr)
 
     # if there were Nones in the key, we insert them back here
-    compressed_axes = np.array(compressed_axes)
-    shape = shape.tolist()
-    for i in range(len(key)):
-        if key[i] is None:
-            shape.insert(i, 1)
-            compressed_axes[compressed_axes >= i] += 1
-
-    compressed_axes = tuple(compressed_axes)
-    shape = tuple(shape)
+    compressed_axes = tuple(np.array(compressed_axes))
+    shape = tuple(shape.tolist())
 
     if len(shape) == 1:
         compressed_axes = None
